@@ -14,8 +14,9 @@ class C04(Prop):
     title = 'BIP143 witness-v0 signature hash equals the spec over the full field range'
     lean_targets = ['BtcVerif.Props.C04']
     table_groups = ['Sighash']
-    theorems = ['BtcVerif.C04.' + t for t in ('bip143_eq_spec', 'bip143_eq_spec_wf', 'bip143_defined',
-                                         'bip143_no_pyexc', 'bip143_index_error')]
+    theorems = ['BtcVerif.C04.' + t for t in ('bip143_eq_spec', 'bip143_eq_spec_wf', 'bip143_eq_spec_int',
+                                         'bip143_defined', 'bip143_no_pyexc', 'bip143_index_error',
+                                         'bip143_ignores_scriptSig_witness')]
     anchors = [('bitcoin/core/script.py', 'SignatureHash')]
     trusted_base = ['Spec.Sighash.bip143Sighash transcribes the BIP143 specification text',
                     'SHA-256d is an opaque symbol in the theorems; the executable Crypto.hash256 is validated against '
